@@ -259,6 +259,21 @@ pub fn gen_nid(rng: &mut Rng, thorough: bool, out: &mut String) {
         nid_deser(&hs, out);
         nid_deser(&format!("0x{hs}"), out);
     }
+    // the whole single-character alphabet: every code point U+0000..U+00FF in place of one digit, in a
+    // high-nibble, a low-nibble and the last position (hand-written digit tables and case folds such as
+    // `c | 0x20` map control characters, punctuation or Latin-1 letters onto digits)
+    {
+        let raw: [u8; 32] = rng.bytes(32).try_into().unwrap();
+        let h = hex::encode(raw);
+        for cp in 0u32..=0xff {
+            let c = char::from_u32(cp).unwrap();
+            for pos in [0usize, 1, 63] {
+                let t: String = h.chars().enumerate().map(|(j, x)| if j == pos { c } else { x }).collect();
+                nid_deser(&t, out);
+                nid_deser(&format!("0x{t}"), out);
+            }
+        }
+    }
     // characters outside ASCII that Unicode-aware operations map to hex digits or drop: ligatures
     // (upper-casing U+FB00 gives "FF"), full-width and other scripts' digits and letters, letters
     // that case-fold into ASCII, combining marks, invisible characters, byte-order mark
